@@ -504,15 +504,23 @@ impl Python {
                     format!(
                         "{indent}\"\"\"\n{indented_comments}\n{indent}\"\"\"",
                         indent = indent,
+                        // backslashes and the closing delimiter must stay text of the docstring
                         indented_comments = comments
                             .iter()
-                            .map(|v| format!("{}{}", indent, v))
+                            .map(|v| {
+                                format!(
+                                    "{}{}",
+                                    indent,
+                                    v.replace('\\', "\\\\").replace("\"\"\"", "\\\"\\\"\\\"")
+                                )
+                            })
                             .collect::<Vec<String>>()
                             .join("\n"),
                     )
                 } else {
                     comments
                         .iter()
+                        .flat_map(|v| v.split('\n'))
                         .map(|v| format!("{}# {}", indent, v))
                         .collect::<Vec<String>>()
                         .join("\n")
